@@ -61,6 +61,8 @@ structure Reply where
   id : Nat
   to : Nat
   err : Option Cond
+  /-- who sent the response: 0 = the receiving client (the peer of the sending job), other = somebody else -/
+  origin : Nat := 0
   deriving DecidableEq, Repr
 
 /-! ### the receiver's output device -/
@@ -196,7 +198,8 @@ instance (s : Send) : Decidable s.success := by unfold Send.success; infer_insta
 /-- one IQ response handled by the sending client (`_q_iqReceived` → `ibbResponseReceived`).
 A response addressed to somebody else never reaches it. -/
 def sender (s : Send) (rep : Reply) : Send × Option Stanza :=
-  if rep.to ≠ 0 then (s, none)
+  -- `_q_iqReceived`: only `ptr->d->jid == iq.from() && ptr->d->requestId == iq.id()` is looked at
+  if rep.to ≠ 0 ∨ rep.origin ≠ 0 then (s, none)
   else if rep.id ≠ s.requestId then (s, none)
   else if s.state = .finished then (s, none)
   else
@@ -242,6 +245,13 @@ inductive Op
   | wrongSender
   /-- an arbitrary additional request arrives (third party, other session, or forged in the sender's name) -/
   | inject (sender sid : Nat) (kind : Kind)
+  /-- the pending request is lost and NOBODY answers the sender (a lost stanza on a stream that stays up) -/
+  | lose
+  /-- a response IQ reaches the SENDING client: from the peer (`origin = 0`) or somebody else, carrying the id of the
+  sender's last request (`back = 0`) or of the request `back` ids earlier, `result` or an error -/
+  | injectReply (origin back : Nat) (err : Option Cond)
+  /-- the receiving peer sends `<close/>` to the sending client (XEP-0047 allows either side to close) -/
+  | peerClose
   deriving DecidableEq, Repr
 
 def bitMask (k : Nat) : UInt8 :=
@@ -317,6 +327,11 @@ def step (H : List UInt8 → List UInt8) (st : St) : Op → St × List Reply
     | none => (st, [])
     | some p => deliverStanza H { st with pending := none } { p with sender := 1 }
   | .inject sender sid kind => deliverStanza H st { id := 0, sender := sender, sid := sid, kind := kind }
+  | .lose => ({ st with pending := none }, [])
+  | .injectReply origin back err =>
+    (feed st { id := st.s.requestId - back, to := 0, err := err, origin := origin }, [])
+  -- `ibbCloseIqReceived` only knows incoming jobs: the sending client answers <item-not-found/>, the job goes on
+  | .peerClose => (st, [{ id := 0, to := 1, err := some .itemNotFound }])
 
 def run (H : List UInt8 → List UInt8) (st : St) : List Op → St × List Reply
   | [] => (st, [])
